@@ -1,5 +1,10 @@
 /* unit scq - detail/nikolaev_scq.hpp (C05 nikolaev half, C04).  Only declarations, the representation invariant Inv_S
  * (as a builder and as a checker), the abstract contract (scq_contract.h) and harnesses; all function bodies are in lowered.h */
+/* sync preconditions (memory orders are data): loads of ring entries acquire-or-stronger, the entry CAS of enqueue and the entry fetch_or / CAS of dequeue release-or-stronger */
+static void mon_entry_access(int kind, const void* addr, int order, _Bool ok);
+#define XV_ON_LOAD(addr, val, order) mon_entry_access(0, (const void*)(addr), (order), 1)
+#define XV_ON_CAS(addr, e, d, ok, order) mon_entry_access(1, (const void*)(addr), (order), (ok))
+#define XV_ON_RMW(addr, oldv, newv, order) mon_entry_access(2, (const void*)(addr), (order), 1)
 #include "xv.h"
 int xv_threw; uint64_t xv_clock, xv_rmw_old; _Bool xv_cas_ok;
 typedef uint64_t index_t; typedef int64_t indexdiff_t; typedef uint64_t value_t;
@@ -26,6 +31,15 @@ struct scq { index_t _head; int64_t _threshold; index_t _tail; uint64_t _data[N]
 #define XV_INIT__threshold(self, v) ((self)->_threshold = (v))
 #define XV_INIT__tail(self, v)      ((self)->_tail = (v))
 #define XV_INIT__data(self, cnt)    ((self)->xv_alloc = (cnt))    /* number of words allocated for _data */
+const struct scq* mon_scq; _Bool scq_bad_order;
+static void mon_entry_access(int kind, const void* addr, int order, _Bool ok) {
+  if (!mon_scq) return;
+  _Bool is_entry = 0;
+  for (unsigned s = 0; s < N; s++) if (addr == (const void*)&mon_scq->_data[s]) is_entry = 1;
+  if (!is_entry) return;
+  if (kind == 0 && !XV_IS_ACQUIRE(order)) scq_bad_order = 1;
+  if (kind != 0 && ok && !XV_IS_RELEASE(order)) scq_bad_order = 1;
+}
 #include "scq_contract.h"
 #include "lowered.h"
 
@@ -142,7 +156,9 @@ void h_enq(void) {
   XV_ASSUME(in_cnt < CAP);                      /* requires: the index being enqueued is outside the ring */
   build(&q); abs_of_inputs(&a); b = a;
   in_v = nondet_u64(); XV_ASSUME(in_v < CAP);
+  mon_scq = &q; scq_bad_order = 0;
   _Bool r = scq_enqueue(&q, in_v, CAP, RS());
+  mon_scq = 0; XV_OBL("scq.sync.orders", !scq_bad_order);
   _Bool ra = abs_enqueue(&b, in_v, Finalizable);
   uint64_t H, gap;
   XV_OBL("scq.enqueue.appends", r == ra);
@@ -164,7 +180,9 @@ void h_deq(void) {
   struct scq q; struct ring_abs a, b; havoc_ring(&q); havoc_inputs(); in_op = 1;
   build(&q); abs_of_inputs(&a); b = a;
   uint64_t out0 = nondet_u64(), out = out0, outa = out0;
+  mon_scq = &q; scq_bad_order = 0;
   _Bool r = scq_dequeue(&q, &out, CAP, RS());
+  mon_scq = 0; XV_OBL("scq.sync.orders", !scq_bad_order);
   _Bool ra = abs_dequeue(&b, &outa);
   uint64_t H, gap; _Bool rep = represents(&q, &b, &H, &gap);
   XV_OBL("scq.dequeue.empty_iff", r == ra);
